@@ -6,7 +6,11 @@ Spec:   MockAtomic.tla (requirement: raised => content unchanged, per operation
         code, explored by TLC for every operation x scenario; legacy
         configurations without batch rollback / with the namespace provider's
         early write without cleanup / with a snapshot of the target namespace
-        only must fail), MockAtomicTrace.tla; plus the Atomic.* clause
+        only / with a DeleteClass snapshot taken after the instance-less
+        subclasses are gone / with reference namespaces de-duplicated as
+        strings / with a three-namespace DeleteInstance that checks each
+        namespace when it gets there must fail), MockAtomicTrace.tla; plus
+        the Atomic.* clause
         of RepoCore.tla on the C10 instance histories.
 Binding: seeded histories of valid and rejected calls of every family (single
         objects rejected for every reason, MOF/object batches whose k-th
